@@ -33,7 +33,7 @@ def oracle(ctx, seeds=None):
     for i in range(ctx.n(90, 2500)):
         euler = (i % 2 == 0)
         n = int(rng.integers(3, 24))
-        kind = int(rng.integers(3))
+        kind = int(rng.integers(4))
         bc = str(rng.choice(['per', 'sym']))
         integ = SSP[i % 3]
         cfl = float(rng.choice([0.5, 0.45, rng.uniform(0.05, 0.5)]))
@@ -48,6 +48,10 @@ def oracle(ctx, seeds=None):
                 r *= 10.0 ** rng.uniform(-1, 1); p *= 10.0 ** rng.uniform(-1, 1)
             elif kind == 1:
                 r = 10.0 ** rng.uniform(-1.5, 1.5, n); p = 10.0 ** rng.uniform(-1.5, 1.5, n); M = rng.uniform(-3, 3, n)
+            elif kind == 3:    # one stream, supersonic or not, to either side, carrying a strong density/pressure jump (dense side left or right)
+                ratio = 10.0 ** rng.uniform(-3, -1); left_dense = bool(rng.integers(2))
+                jump = np.where(np.arange(n) < n // 2, 1.0 if left_dense else ratio, ratio if left_dense else 1.0)
+                r = jump.copy(); p = jump * 10.0 ** rng.uniform(-0.3, 0.3); M = np.full(n, float(rng.choice([1.5, -1.5, 2.5, -2.5, 0.5, -0.5])))
             else:              # colliding / receding streams
                 r = np.full(n, 1.0); p = np.full(n, 10.0 ** rng.uniform(-2, 1)); M = np.where(np.arange(n) < n // 2, 1.0, -1.0) * rng.uniform(0.5, 3) * float(rng.choice([1, -1]))
             W = [r, M * np.sqrt(g * p / r), p]
@@ -58,6 +62,10 @@ def oracle(ctx, seeds=None):
                 h = np.where(np.arange(n) < n // 2, 1.0, 10.0 ** rng.uniform(-3, 0)) * 10.0 ** rng.uniform(-1, 1); F = np.where(np.arange(n) < n // 2, rng.uniform(-3, 3), rng.uniform(-3, 3))
             elif kind == 1:
                 h = 10.0 ** rng.uniform(-1.5, 1.5, n); F = rng.uniform(-3, 3, n)
+            elif kind == 3:
+                ratio = 10.0 ** rng.uniform(-3, -1); left_deep = bool(rng.integers(2))
+                h = np.where(np.arange(n) < n // 2, 1.0 if left_deep else ratio, ratio if left_deep else 1.0) * 10.0 ** rng.uniform(-1, 1)
+                F = np.full(n, float(rng.choice([1.5, -1.5, 2.5, -2.5, 0.5, -0.5])))
             else:
                 h = np.full(n, 1.0); F = np.where(np.arange(n) < n // 2, 1.0, -1.0) * rng.uniform(0.5, 3) * float(rng.choice([1, -1]))
             W = [h, F * np.sqrt(gg * h)]
